@@ -64,11 +64,12 @@ class SetupArgVisitor(cst.CSTVisitor):
         match node.keyword, node.value:
             case cst.Name(value="python_requires"), cst.SimpleString() as string_node:
                 # TODO: this works for `python_requires=">=3.7",` but what about a list of versions?
-                self.python_requires.append(clean_simplestring(string_node.value))
+                self.python_requires.append(clean_simplestring(string_node))
             case cst.Name(value="install_requires"), cst.List() as list_node:
                 for elm in list_node.elements:
                     match elm:
                         case cst.Element(value=cst.SimpleString() as string_node):
+                            # the node, not its source text: 'pkg' and "pkg" are the same requirement
                             self.install_requires.append(
-                                clean_simplestring(string_node.value)
+                                clean_simplestring(string_node)
                             )
